@@ -441,7 +441,7 @@ fn spawn_child(cx: &Ctx, bin: &str, from: u64, to: u64, budget: f64) -> (Option<
 pub fn run(cx: &mut Ctx) {
     let bin = std::env::var("VERIF_BIN").unwrap_or_else(|_| std::env::current_exe().unwrap().to_string_lossy().to_string());
     let rel = std::env::var("VERIF_REL_BIN").ok();
-    let total: u64 = if cx.thorough { 400_000 } else { 9_000 };
+    let total: u64 = if cx.thorough { 400_000 } else { 18_000 };
     if let Some(c) = cx.only_case {
         let (rep, _, status) = spawn_child(cx, &bin, c, c + 1, 120.0);
         match rep {
